@@ -1,28 +1,28 @@
 SPECIFICATION Spec
 CONSTANTS
   Hs <- L_H4
-  Ms <- L_M2
+  Ms <- L_M1
   Ks <- L_K1
   Bs <- L_B2
   Fs <- L_F1
-  Q0s <- L_Q3
-  V0s <- L_V3
-  W0s <- L_W
+  Q0s <- L_Q2
+  V0s <- L_V2
+  W0s <- L_W2
   T0s <- L_T0
-  Us <- L_U
-  Integs <- L_AllInt
-  EDamps <- L_Bool
-  Dampers <- L_Bool
-  Springs <- L_Bool
-  Actuations <- L_Bool
-  GroupOns <- L_Bool
-  Acts <- L_ActsA
+  Us <- L_U2
+  Integs <- L_Single
+  EDamps <- L_True
+  Dampers <- L_True
+  Springs <- L_True
+  Actuations <- L_True
+  GroupOns <- L_True
+  Acts <- L_FE
   MaxSteps = 1
-  MaxOff = 2
-  Variant = "doc"
+  MaxOff = 5
+  Variant = "noexactclamp"
   Bound = 1024
   BoundRK = 64
-VIEW ViewNoEv
+
 INVARIANT TypeOK
 INVARIANT DerivedOK
 INVARIANT TimeAdvances
